@@ -21,6 +21,8 @@ impl<V: Ord> CvRDT for MinReg<V> {
     open spec fn cv_inv(&self) -> bool { ord_ok::<V>() }
     open spec fn cv_pre(&self, other: &Self) -> bool { true }
     open spec fn cv_post(old_: &Self, other: &Self, new_: &Self) -> bool { true }
+    open spec fn cv_vhyp() -> bool { true }
+    open spec fn cv_flag(&self, other: &Self) -> bool { false }
 
 //@extract fn src/minreg.rs "CvRDT for MinReg" validate_merge
     fn validate_merge(&self, _other: &Self) -> /*@ (r: @*/ Result<(), Self::Validation> /*@ ) @*/
@@ -47,6 +49,8 @@ impl<V: Ord> CmRDT for MinReg<V> {
     open spec fn cm_pre(&self, op: &V) -> bool { true }
     open spec fn cm_post(old_: &Self, op: &V, new_: &Self) -> bool { true }
     open spec fn cm_vpre(&self, op: &V) -> bool { true }
+    open spec fn cm_vhyp() -> bool { true }
+    open spec fn cm_vflag(&self, op: &Self::Op) -> bool { false }
 
 //@extract fn src/minreg.rs "CmRDT for MinReg" validate_op
     fn validate_op(&self, _op: &Self::Op) -> /*@ (r: @*/ Result<(), Self::Validation> /*@ ) @*/
